@@ -11,6 +11,21 @@ def run(ctx):
     cases = [c for c in cases if not c["fault"]]
     jobs = [dict(ocfg=c, variant=k, scheduler="synchronous" if c["dask"] else None, repeat=2 if k % 4 == 1 else 1)
             for k, c in enumerate(cases)]
+    # sessions: run, edit the configured value of one or two parameters on the caller's objects, run again
+    for k, c in enumerate(cases):
+        nen = sum(1 for p in c["params"] if p["enabled"])
+        if c["mode"] == "sequential" and nen >= 2:
+            # where it matters most: the parameters that are not being stepped keep their (new) configured values
+            # (executed without dask: with dask this space is the known finding space.sequential-dask)
+            jobs.append(dict(ocfg=dict(c, dask=False), variant=k, repeat=2, reconf=[[0, 3], [len(c["params"]) - 1, 2]]))
+        elif any(not p["enabled"] for p in c["params"]) and k % 2 == 0:
+            j = next(i for i, p in enumerate(c["params"]) if not p["enabled"])
+            jobs.append(dict(ocfg=c, variant=k, scheduler="synchronous" if c["dask"] else None, repeat=2, reconf=[[j, 2]]))
+        if k % 3 == 0 and len(c["params"]) >= 1:
+            rc = [[(k // 3) % len(c["params"]), 1 + (k % 3)]]
+            if len(c["params"]) > 1 and k % 2:
+                rc.append([(k // 3 + 1) % len(c["params"]), 2])
+            jobs.append(dict(ocfg=c, variant=k, scheduler="synchronous" if c["dask"] else None, repeat=2, reconf=rc))
     traces = O.record(jobs)
     ctx.cov["replayed_cases"] += len(traces)
     ctx.sample({"ocfg": traces[1]["ocfg"], "events": traces[1]["events"][:6]})
